@@ -14,6 +14,7 @@ import (
 	"net"
 	"sort"
 	"sync"
+	"sync/atomic"
 	"time"
 
 	"github.com/q191201771/naza/pkg/nazanet"
@@ -262,7 +263,7 @@ func (s *UDPSock) ReadFromUDP(b []byte) (int, *net.UDPAddr, error) {
 			s.ready = s.ready[1:]
 			n := copy(b, d.B) // excess bytes of a datagram are discarded, as recvfrom does
 			s.TotalRead++
-			s.k.Stats.BytesIn += int64(n)
+			atomic.AddInt64(&s.k.Stats.BytesIn, int64(n))
 			from := d.From
 			return n, &from, nil
 		}
